@@ -473,6 +473,14 @@ func (p *Path) stubByName(name string, fn *ssa.Function, args []Value) (Value, b
 		return itoa(args[0].(*Term)), true
 	case "strings.Contains":
 		return mkContains(args[0].(*Term), args[1].(*Term)), true
+	case "bytes.Equal":
+		return mkEq(strArg(args[0]), strArg(args[1])), true
+	case "bytes.HasPrefix":
+		return mkPrefixOf(strArg(args[1]), strArg(args[0])), true
+	case "bytes.HasSuffix":
+		return mkSuffixOf(strArg(args[1]), strArg(args[0])), true
+	case "bytes.Contains":
+		return mkContains(strArg(args[0]), strArg(args[1])), true
 	case "strings.ContainsAny":
 		str, chars := args[0].(*Term), args[1].(*Term)
 		if chars.IsConst() {
